@@ -296,6 +296,11 @@ structure RootPre where
   prev : String
 deriving Repr, DecidableEq
 
+/-- the bytes an account's state hash is computed from (`getStateJournalAndComputeHash`): the changed
+keys in order, each followed by its new value — no length prefix, no separator, nothing for a delete -/
+def stateDataText (sd : List (String × Bytes)) : String :=
+  sd.foldl (fun x kv => x ++ kv.1 ++ kv.2.getD "") ""
+
 def changedKeys (acc : Acct) : List (String × Bytes) :=
   acc.dirtyState.filter (fun p => !beq ((KV.get acc.originState p.1).getD none) p.2)
 
@@ -401,6 +406,13 @@ def commit (l : L) (h : Nat) (f : Flushed) : Option L :=
     let l1 := { l with db := db3, minJ := minJ, maxJ := h }
     let l2 := if h > journalWindow then pruneJournals l1 (h - journalWindow) else l1
     some { l2 with blockJournals := [] }
+
+/-- number of low-level durable writes `Commit` issues against the state store for height `h`: one batch (accounts,
+storage, code, the block journal, `maxHeight`, and `minHeight` for the first journal), plus the pruning batch of
+`removeJournalsBeforeBlock` when it has something to prune -/
+def commitWrites (l : L) (h : Nat) : Nat :=
+  let minJ := if l.minJ = 0 then h else l.minJ
+  1 + (if h > journalWindow ∧ ¬ (h - journalWindow ≤ minJ) then 1 else 0)
 
 -- ------------------------------------------------------------------------------------ rollback
 
